@@ -242,6 +242,7 @@ type UnitResult struct {
 	Trusted   map[string]int
 	Imprecise map[string]int
 	SpecErrs  []string
+	Stale     []string // loop/call clauses that name a local the code no longer has
 	Detached  []string
 	RetPC     string // path condition of reaching a return (for the vacuity guard)
 	Vacuous   string // non-empty: the assumptions at the return are contradictory (solver name)
@@ -384,7 +385,7 @@ func (w *World) verifyUnit(fn *ssa.Function, defaultSafety []string) *UnitResult
 		sites = append(sites, RetSite{PC: r.pc, Where: fmt.Sprintf("%s:%d", filepath.Base(p.Filename), p.Line)})
 	}
 	res := &UnitResult{Fn: fn, Key: funcKey(fn), RetSites: sites, Pkg: w.pkgOf(fn).Pkg.Name(), Detached: e.detached, RetPC: rpc, Obs: e.obs, Unsupp: e.unsupp, Unmod: e.unmod, Inlined: e.inlined,
-		Trusted: e.trusted, Imprecise: e.imprecise, SpecErrs: e.specErrs, HasCon: con != nil, engine: e}
+		Trusted: e.trusted, Imprecise: e.imprecise, SpecErrs: e.specErrs, Stale: e.stale, HasCon: con != nil, engine: e}
 	// stable obligation names
 	seen := map[string]int{}
 	for _, o := range e.obs {
